@@ -182,6 +182,41 @@ def directed():
     return out
 
 
+def cut_scripts(tier):
+    """C17, Reader half: the connection is lost after k whole batches + r records + e bytes of a fetch response (every record
+    boundary, inside records, inside batch headers), for record batches (every codec) and v0/v1 message sets; the Reader goes on
+    on a new connection without losing, duplicating or reordering records (the C02 invariants)."""
+    B = lambda base, last, present, fmt="v2", codec=0: {"base": base, "last": last, "present": present, "fmt": fmt, "codec": codec}
+    out = []
+    logs = [("v2", 10, [B(0, 2, [0, 1, 2]), B(3, 5, [3, 4, 5]), B(6, 8, [6, 7, 8])]),
+            ("v2z", 10, [B(0, 2, [0, 1, 2], "v2", 1), B(3, 5, [3, 4, 5], "v2", 2), B(6, 8, [6, 7, 8], "v2", 4)]),
+            ("v1", 2, [B(o, o, [o], "v1") for o in range(7)]),
+            ("v1w", 2, [B(0, 2, [0, 1, 2], "v1w", 1), B(3, 5, [3, 4, 5], "v1w", 2)])]
+    extras = (0, 1, 7, 20, 45, 70) if tier == "quick" else (0, 1, 3, 7, 12, 20, 27, 33, 45, 61, 70, 90)
+    for name, fv, log in logs:
+        for k in range(0, 3):
+            for r in range(0, 3):
+                for e in extras:
+                    cut = {"op": "fault", "fault": {"kind": "cut", "batches": k, "records": r, "extra": e}}
+                    # the cut hits the first response (which holds the whole log) ...
+                    out.append({"id": "C-cut-%s-b%d-r%d-x%d" % (name, k, r, e), "log": log, "logStart": 0, "start": -2, "qcap": 2, "fetchVersion": fv,
+                                "maxBytes": 1 << 20, "steps": [cut, {"op": "fetch", "n": 40}]})
+                    # ... or a later one, after records were delivered from earlier responses (one batch per response: MaxBytes 1, fetch v3+)
+                    if fv >= 3 and k < 2:
+                        out.append({"id": "C-cut-late-%s-b%d-r%d-x%d" % (name, k, r, e), "log": log, "logStart": 0, "start": -2, "qcap": 1, "fetchVersion": fv,
+                                    "maxBytes": 1, "steps": [{"op": "fetch", "n": 2}, dict(cut, fault=dict(cut["fault"], batches=0)), {"op": "fetch", "n": 2},
+                                                             dict(cut, fault=dict(cut["fault"], batches=0, records=1)), {"op": "fetch", "n": 40}]})
+    return out
+
+
+def cut_part(ctx):
+    scripts = cut_scripts(ctx.tier)
+    traces = run_scripts(ctx, scripts, "c17")
+    n = monitor(ctx, scripts, traces, INVS + ["C09r_CloseReturns"])
+    ctx.log("Reader continuation after cut fetch responses: %d scenarios monitored" % n)
+    return {"scenarios": len(scripts), "traces_monitored": n, "invariants": INVS}
+
+
 def gen_scripts(seed, n):
     rng = random.Random(seed * 15485863 + 3)
     return directed() + [gen_script(rng, "R%d-%d" % (seed, k)) for k in range(n)]
